@@ -33,6 +33,7 @@ int main()
     int bad = 0;
     bad += probe<QXmppEntityTimeIq>("<tzo>+24:00</tzo>", "<iq xmlns='jabber:client' id='t1' type='result'><time xmlns='urn:xmpp:time'><tzo>+24:00</tzo><utc>2020-01-01T00:00:00Z</utc></time></iq>");
     bad += probe<QXmppEntityTimeIq>("<tzo>-13:45</tzo>", "<iq xmlns='jabber:client' id='t1' type='result'><time xmlns='urn:xmpp:time'><tzo>-13:45</tzo><utc>2020-01-01T00:00:00Z</utc></time></iq>");
+    bad += probe<QXmppEntityTimeIq>("<tzo>+99:99</tzo>", "<iq xmlns='jabber:client' id='t1' type='result'><time xmlns='urn:xmpp:time'><tzo>+99:99</tzo><utc>2020-01-01T00:00:00Z</utc></time></iq>");
     bad += probe<QXmppMessage>("delay stamp in year 10000", "<message xmlns='jabber:client' type='chat'><body>x</body><delay xmlns='urn:xmpp:delay' stamp='10000-01-01T00:00:00Z'/></message>");
     bad += probe<QXmppMessage>("delay stamp with 4 ms", "<message xmlns='jabber:client' type='chat'><body>x</body><delay xmlns='urn:xmpp:delay' stamp='2020-01-01T00:00:00.004Z'/></message>");
     if (bad) {
